@@ -113,6 +113,10 @@ def optimizer_rule(ctx, py, ci, mf, where):
                        for c, b in rec['conds'])
         if fwd and not nonempty:
             probs.append('forwards without testing that the map is non-empty')
+        if nonempty and len(fwd) != 1:
+            probs.append(f'forwards {len(fwd)} times for a non-empty map: the wrapped interpreter must see the instantiation exactly once')
+    if not any(s_[0] == mf.meth for rec in mf.paths for s_ in rec['subcalls']):
+        probs.append('never forwards: the wrapped interpreter does not see an instantiation with a non-empty map')
     ctx.ob('forwarding', f'{ci.name}.{mf.meth}', not probs, '; '.join(probs), where)
 
 
@@ -175,6 +179,32 @@ def static_vs_dynamic(ctx, py: PyRepo, w: Wiring):
         mf = PM.level_facts(py, w.basic, bm)
         dyn = [canon_components(rec['ret'], rec['conds'], py) for rec in mf.paths
                if rec['ret'] is not None and rec['ret'] != ('param', 'proved')]
+        # ... for the premises the thunk actually hands over: the call inside the thunk passes, for every parameter of
+        # BasicInterpreter.<bm>, the same-named argument of the primitive (a premise thunk applied to the interpreter, or the value)
+        bparams = [a.arg for a in mf.node.args.args[1:]]
+        lam_ok, lam_why = None, ''
+        for p in ev.paths(fn):
+            if p.end[0] == 'return' and p.end[1][0] == 'call' and p.end[1][1] == ('name', 'ProofThunk') and len(p.end[1][2]) == 2 \
+                    and p.end[1][2][0][0] == 'lambda' and len(p.end[1][2][0][1]) == 1:
+                iv = ('bound', p.end[1][2][0][1][0])
+                body = p.end[1][2][0][2]
+                if body[0] == 'call' and body[1] == ('attr', iv, bm) and not body[3]:
+                    got = []
+                    for a in body[2]:
+                        if a[0] == 'param':
+                            got.append(a[1])
+                        elif a[0] == 'call' and a[1][0] == 'param' and a[2] == (iv,):
+                            got.append(a[1][1])
+                        else:
+                            got.append(None)
+                    lam_ok = got == bparams
+                    lam_why = f'the thunk calls interpreter.{bm}({", ".join(str(g) for g in got)}) for the parameters ({", ".join(bparams)})'
+                else:
+                    lam_ok, lam_why = False, f'the thunk does not call interpreter.{bm}(..)'
+        if lam_ok is not None:
+            ctx.ob('static-conclusion', f'{pm}/premises-in-order', lam_ok,
+                   f'ProofExp.{pm}: {lam_why} - the conclusion advertised is computed for other premises than the ones interpreted',
+                   where)
         ok = static is not None and bool(dyn) and all(_same_term(w, norm(static), norm(d)) for d in dyn)
         ctx.ob('static-conclusion', pm, ok,
                f'ProofExp.{pm} advertises {show(static) if static else None} but BasicInterpreter.{bm} returns '
@@ -195,6 +225,25 @@ def static_vs_dynamic(ctx, py: PyRepo, w: Wiring):
     ok = any(p.end[0] == 'return' and p.end[1][0] == 'call' and p.end[1][2][1] == ('attr', ('param', 'proved'), 'conc')
              for p in ev.paths(fn))
     ctx.ob('static-conclusion', 'publish_proof', ok, 'publish_proof must advertise proved.conc', py.where('proof', fn))
+    # the thunks written as nested functions perform the interpreter call they stand for, on every path
+    for pm, meth, nargs in (('publish_proof', 'publish_proof', 1), ('load_axiom', 'load', 2)):
+        fn = py.method('ProofExp', pm)
+        inner = [g for g in fn.body if isinstance(g, ast.FunctionDef) and len(g.args.args) == 1]
+        if len(inner) != 1:
+            continue
+        iv = inner[0].args.args[0].arg
+        good = True
+        n_paths = 0
+        for sp in __import__('sa.core.astpaths', fromlist=['paths']).paths(inner[0].body):
+            if sp.end == 'raise':
+                continue
+            n_paths += 1
+            calls = [c for a in sp.actions for c in ast.walk(a) if isinstance(c, ast.Call) and isinstance(c.func, ast.Attribute)
+                     and c.func.attr == meth and isinstance(c.func.value, ast.Name) and c.func.value.id == iv and len(c.args) == nargs]
+            good = good and len(calls) == 1
+        ctx.ob('static-conclusion', f'{pm}/thunk-performs-the-call', good and n_paths >= 1,
+               f'the thunk of ProofExp.{pm} must call interpreter.{meth}(..) exactly once on every path: otherwise the step is advertised '
+               f'but not performed', py.where('proof', inner[0]))
 
 
 def _same_term(w: Wiring, a, b) -> bool:
